@@ -17,7 +17,25 @@
 (*   MaskOnReloadFail   cdc_impl.go:210  the task info logged when a task cannot be       *)
 (*                                       started at reload is masked                      *)
 (*   NoDecodeEcho       server.go:130    a decode error does not echo the offending value *)
-(* Fault codes: 0 none; 1..6 the k-th store call fails; 95 semantically invalid request;  *)
+(* Input dimension SPELLING of the request's keys: the request body is decoded by         *)
+(* mapstructure, which matches keys to fields case-insensitively, so "Token", "PASSWORD", *)
+(* sasl "UserName" are the same request as the lower-case spelling and carry the same     *)
+(* secrets.  Spellings: "canon" (lower case), "cap" (credential keys capitalised),        *)
+(* "upper" (credential keys in upper case), "mixed" (alternating case, credential keys    *)
+(* AND the enclosing milvus_connect_param / kafka_connect_param / sasl keys).             *)
+(*   MaskDecoded        server.go:140    TRUE (as built): the request log masks the       *)
+(*                                       DECODED request, i.e. by field; FALSE (negative  *)
+(*                                       control, must violate): it masks the raw request *)
+(*                                       map by comparing keys with the canonical names   *)
+(* Store READ faults at get / list / position: the only store call of these steps is the  *)
+(* read; fault k = the k-th store call of the step fails, 90 = every store call fails.    *)
+(*   ReadFailIsError    cdc_impl.go:1592 TRUE (as built): a get / list whose store read   *)
+(*                                       fails answers with the error; FALSE (negative    *)
+(*                                       control, must violate): it answers from another  *)
+(*                                       copy of the record (memory) that is not masked   *)
+(*                                       like the store path                              *)
+(* Fault codes: 0 none; 1..6 the k-th store call fails; 90 every store call of the step   *)
+(* fails; 95 semantically invalid request;                                                *)
 (* 96 duplicate of the existing task; 97 unreachable target; 98 credential field of the   *)
 (* wrong JSON type; 99 the entity factory fails.                                          *)
 EXTENDS Integers, Sequences, FiniteSets, TLC, Json
@@ -27,7 +45,10 @@ CONSTANTS Kinds,          \* subset of {"token", "userpass", "kafka", "kafka_off
           ReadFaults, PauseFaults, ResumeFaults, DeleteFaults, RestartFaults,
           WithDupCreate,  \* a second create (fault 95 / 96 / 98) may follow
           MaxOps,
-          MaskOnCreateFail, MaskOnConnectFail, MaskSasl, MaskOnReloadFail, NoDecodeEcho
+          MaskOnCreateFail, MaskOnConnectFail, MaskSasl, MaskOnReloadFail, NoDecodeEcho,
+          Spellings,      \* subset of {"canon", "cap", "upper", "mixed"}: how the create requests spell their keys
+          MaskDecoded,    \* TRUE = as built
+          ReadFailIsError \* TRUE = as built
 
 \* "kafka_off": a Kafka target whose sasl block carries user / password while enable_sasl is false (the credentials
 \* are stored and must be masked all the same)
@@ -37,22 +58,24 @@ Sasl(k)   == IF k \in KafkaKinds THEN {"sasl_pass", "sasl_user"} ELSE {}
 
 VARIABLES task,      \* "none" | "Running" | "Paused"
           kind,      \* kind of the create request(s) of this history
+          spell,     \* spelling of the keys of the create request(s) of this history
           logLeak,   \* observation of the last step
           respLeak,
           lastOp,
           hist
 
-vars == <<task, kind, logLeak, respLeak, lastOp, hist>>
-view == <<task, kind, logLeak, respLeak, lastOp, Len(hist)>>
+vars == <<task, kind, spell, logLeak, respLeak, lastOp, hist>>
+view == <<task, kind, spell, logLeak, respLeak, lastOp, Len(hist)>>
 
-Init == /\ task = "none" /\ kind \in Kinds /\ logLeak = {} /\ respLeak = {} /\ lastOp = "none" /\ hist = <<>>
+Init == /\ task = "none" /\ kind \in Kinds /\ spell \in Spellings /\ logLeak = {} /\ respLeak = {} /\ lastOp = "none" /\ hist = <<>>
 
 If(c, S) == IF c THEN S ELSE {}
 
 \* what a create request of kind k with fault f writes to the log
-CreateLog(k, f, failed) ==
+CreateLog(k, sp, f, failed) ==
     IF f = 98 THEN If(~NoDecodeEcho, Secret(k))                       \* never reaches Create: handleError echoes the value
-    ELSE If(~MaskSasl, Sasl(k))                                        \* "request receive" (server.go:134)
+    ELSE If(~MaskSasl, Sasl(k))                                        \* "request receive" (server.go:140)
+         \cup If(~MaskDecoded /\ sp # "canon", Secret(k))              \* the same line, masking by raw key: a key spelled otherwise is not recognised
          \cup If(failed /\ ~MaskOnCreateFail, Secret(k))                \* "fail to create cdc task" (cdc_impl.go:412)
          \cup If(f = 97 /\ ~MaskOnConnectFail, Secret(k))               \* "fail to connect the milvus" (cdc_impl.go:684)
 
@@ -61,12 +84,18 @@ Create(f) ==
        \/ task # "none" /\ f \in {95, 96, 98}
     /\ (f = 97 => kind \notin KafkaKinds)
     /\ \/ /\ f # 0                                  \* the fault fires: the request fails
-          /\ logLeak' = CreateLog(kind, f, TRUE) /\ UNCHANGED task
+          /\ logLeak' = CreateLog(kind, spell, f, TRUE) /\ UNCHANGED task
        \/ /\ f \in 0..6 \cup {99} /\ task = "none"  \* no fault, or a fault position that does not exist
-          /\ logLeak' = CreateLog(kind, f, FALSE) /\ task' = "Running"
+          /\ logLeak' = CreateLog(kind, spell, f, FALSE) /\ task' = "Running"
     /\ respLeak' = {} /\ lastOp' = "create"
 
-Read(op, f) == /\ logLeak' = {} /\ respLeak' = {} /\ lastOp' = op /\ UNCHANGED task      \* GetTask masks every field
+\* get / list / position make one store call (the read).  GetTask masks every field of the records read; a failed read
+\* is answered with the error (as built) or (control) from an unmasked copy of the record
+ReadCalls == 1
+ReadFires(f) == f \in 1..ReadCalls \/ f = 90
+Read(op, f) == /\ logLeak' = {}
+               /\ respLeak' = If(op \in {"get", "list"} /\ ReadFires(f) /\ task # "none" /\ ~ReadFailIsError, Secret(kind))
+               /\ lastOp' = op /\ UNCHANGED task
 
 Pause(f)  == /\ task' = (IF task = "Running" THEN "Paused" ELSE task)      \* pauseTaskWithReason pauses in memory even if the store fails
              /\ logLeak' = {} /\ respLeak' = {} /\ lastOp' = "pause"
@@ -85,17 +114,17 @@ Restart(f) ==
 Next ==
     /\ Len(hist) < MaxOps
     /\ \/ /\ hist = <<>>
-          /\ \E f \in CreateFaults : Create(f) /\ hist' = Append(hist, [op |-> "create", kind |-> kind, fault |-> f])
+          /\ \E f \in CreateFaults : Create(f) /\ hist' = Append(hist, [op |-> "create", kind |-> kind, spell |-> spell, fault |-> f])
        \/ /\ hist # <<>> /\ WithDupCreate
-          /\ \E f \in {95, 96, 98} : Create(f) /\ hist' = Append(hist, [op |-> "create", kind |-> kind, fault |-> f])
+          /\ \E f \in {95, 96, 98} : Create(f) /\ hist' = Append(hist, [op |-> "create", kind |-> kind, spell |-> spell, fault |-> f])
        \/ /\ hist # <<>>
           /\ \/ \E op \in {"get", "list", "position"}, f \in ReadFaults :
-                  Read(op, f) /\ hist' = Append(hist, [op |-> op, kind |-> kind, fault |-> f])
-             \/ \E f \in PauseFaults : Pause(f) /\ hist' = Append(hist, [op |-> "pause", kind |-> kind, fault |-> f])
-             \/ \E f \in ResumeFaults : Resume(f) /\ hist' = Append(hist, [op |-> "resume", kind |-> kind, fault |-> f])
-             \/ \E f \in DeleteFaults : Delete(f) /\ hist' = Append(hist, [op |-> "delete", kind |-> kind, fault |-> f])
-             \/ \E f \in RestartFaults : Restart(f) /\ hist' = Append(hist, [op |-> "restart", kind |-> kind, fault |-> f])
-       /\ UNCHANGED kind
+                  Read(op, f) /\ hist' = Append(hist, [op |-> op, kind |-> kind, spell |-> spell, fault |-> f])
+             \/ \E f \in PauseFaults : Pause(f) /\ hist' = Append(hist, [op |-> "pause", kind |-> kind, spell |-> spell, fault |-> f])
+             \/ \E f \in ResumeFaults : Resume(f) /\ hist' = Append(hist, [op |-> "resume", kind |-> kind, spell |-> spell, fault |-> f])
+             \/ \E f \in DeleteFaults : Delete(f) /\ hist' = Append(hist, [op |-> "delete", kind |-> kind, spell |-> spell, fault |-> f])
+             \/ \E f \in RestartFaults : Restart(f) /\ hist' = Append(hist, [op |-> "restart", kind |-> kind, spell |-> spell, fault |-> f])
+       /\ UNCHANGED <<kind, spell>>
 
 Spec == Init /\ [][Next]_vars
 
@@ -104,7 +133,7 @@ NoLogLeak  == logLeak = {}
 NoRespLeak == lastOp \in {"get", "list"} => respLeak = {}
 Contract == NoLogLeak /\ NoRespLeak
 
-TypeOK == task \in {"none", "Running", "Paused"} /\ logLeak \subseteq {"token", "password", "sasl_pass", "sasl_user"}
+TypeOK == task \in {"none", "Running", "Paused"} /\ spell \in Spellings /\ logLeak \subseteq {"token", "password", "sasl_pass", "sasl_user"}
 
 PlanOut == Len(hist) = MaxOps => PrintT("PLAN " \o ToJson(hist))
 =============================================================================
